@@ -798,7 +798,9 @@ impl Rasn {
                         ..Default::default()
                     })
                 } else {
-                    Ok(self.inner_name(split[1], split[2]).to_token_stream())
+                    // The parent is named as in the ASN.1 source, e.g. `My-Seq`
+                    let parent_name = self.to_rust_title_case(split[2]).to_string();
+                    Ok(self.inner_name(split[1], &parent_name).to_token_stream())
                 }
             } else {
                 Ok(self.to_rust_title_case(t))
